@@ -47,6 +47,9 @@ def run(ctx):
         v = strip(a['l'])['n'] if a['k'] == 'asg' else a['n']
         c = strip(load.eff_cond(a['_b']))
         tested = isinstance(c, dict) and any(x.get('k') == 'var' and x['n'] == v for x in walk(c))
+        # nothing may touch the result between the call and its test
+        between = [x for x in load.blocks[a['_b']]['ev'][a['_i'] + 1:] if uses_var(x, v)]
+        tested = tested and not between
         ctx.check('C08.N1', tested, load.name, 'memchr:unchecked:%s' % v, load.where(e),
                   'the result of memchr (`%s`) is tested right away' % v)
         if not tested:
